@@ -40,7 +40,8 @@ def cmd_import(path):
             sh('git checkout -- hl7apy', cwd=wt)
             os.makedirs(os.path.join(wt, '_mut'), exist_ok=True)
             shutil.copy(demo, os.path.join(wt, '_mut', 'demo.py'))
-            helpers = [h for h in glob.glob(os.path.join(os.path.dirname(demo), '_*.py'))]
+            helpers = [h for h in glob.glob(os.path.join(os.path.dirname(demo), '*.py'))
+                       if not os.path.basename(h).startswith(('demo_', 'apply', 'exp', 'probe', 'try_', 'mkverdicts'))]
             for h in helpers:
                 shutil.copy(h, os.path.join(wt, '_mut', os.path.basename(h)))
             r0 = sh('/venv/bin/python _mut/demo.py', cwd=wt)
